@@ -130,14 +130,26 @@ class NameRef:
 
     def __init__(self, run, label):
         self.label = label
+        self.run = run
         self.is_anchor = run.input_bool(f'{label}_is_anchor_name')
+        self.same_as = {}
 
     def truth(self, it):
         return True
 
     def compare(self, it, op, other, node):
         import ast
-        r = self.is_anchor if other is ANCHOR_NAME else (other is self)
+        if other is ANCHOR_NAME:
+            r = self.is_anchor
+        elif other is self:
+            r = True
+        elif other is None or isinstance(other, (bool, int, str)):
+            r = False
+        else:
+            # an arbitrary name may or may not equal any other given name: one ghost boolean per name compared with
+            if id(other) not in self.same_as:
+                self.same_as[id(other)] = (other, self.run.fresh_bool(f'{self.label}_equals_other_name'))
+            r = self.same_as[id(other)][1]
         return r if isinstance(op, ast.Eq) else Not(r)
 
     def getslice(self, it, lo, hi, node):
